@@ -525,7 +525,7 @@ pub fn c03_pair(alg: Algorithm, old: &[u8], new: &[u8]) -> Result<Out, String> {
         } else {
             2.0 * l as f32 / (n + m) as f32
         };
-        if r != expect {
+        if (r - expect).abs() > 1e-6 {
             return Err(format!(
                 "{}: ratio {} but 2*LCS/(N+M) = {}",
                 CAP_ENTRIES[e], r, expect
@@ -540,7 +540,7 @@ pub fn c03_pair(alg: Algorithm, old: &[u8], new: &[u8]) -> Result<Out, String> {
                     .ratio()
             })
             .map_err(|p| format!("TextDiff::ratio: panic: {}", p))?;
-            if r2 != expect {
+            if (r2 - expect).abs() > 1e-6 {
                 return Err(format!("TextDiff::ratio {} but 2*LCS/(N+M) = {}", r2, expect));
             }
         }
